@@ -165,9 +165,20 @@ def single_path(repo, rep, T):
                          "a statistic that integrates direction itself must raise ValueError for 1-D spectra first; frequency-integrated "
                          "statistics must go through oned() so that 1-D and 2-D spectra give the same value")
     # oned: 1-D branch is the identity copy, 2-D branch is dd * sum over dir
+    from ..astutil import factors, dim_arg
     fi = T.sa.methods["oned"]
-    t = unparse(fi.node).replace(" ", "")
-    if "self.dd*self._obj.sum(dim=attrs.DIRNAME,skipna=skipna)" in t and "self._obj.copy(deep=True)" in t:
+    two_d = one_d = False
+    for n in ast.walk(fi.node):
+        if isinstance(n, ast.BinOp) and isinstance(n.op, ast.Mult):
+            fs = factors(n)
+            if len(fs) == 2 and any(unparse(f) == "self.dd" for f in fs):
+                o = [f for f in fs if unparse(f) != "self.dd"][0]
+                if isinstance(o, ast.Call) and isinstance(o.func, ast.Attribute) and o.func.attr == "sum" and unparse(o.func.value) == "self._obj" \
+                        and dim_arg(o) is not None and repo.const(fi.module, dim_arg(o)) == D:
+                    two_d = True
+        if isinstance(n, ast.Call) and isinstance(n.func, ast.Attribute) and n.func.attr == "copy" and unparse(n.func.value) == "self._obj":
+            one_d = True
+    if two_d and one_d:
         rep.ok("R-C01-3", f"{fi.file}:{fi.node.lineno} SpecArray.oned", "2-D: dd * sum(dir); 1-D: copy", "single integration path")
     else:
         rep.fail("R-C01-3", fi.file, fi.node.lineno, fi.qualname, "oned()", "oned must be dd*sum over dir for 2-D spectra and the identity for 1-D spectra")
@@ -244,40 +255,32 @@ def twins(repo, rep):
 
 def closed_forms(repo, rep):
     """R-C01-5: deep-water celerity 1.56/f and wavelength 1.56/f^2 (coefficient and exponent)."""
+    from ..astutil import monomial
     sites = []
-    for q in ("wavespectra.core.utils.celerity", "wavespectra.core.utils.wavelen"):
-        fi = repo.func(q)
-        for n in ast.walk(fi.node):
-            if isinstance(n, ast.Return) and isinstance(n.value, ast.BinOp) and isinstance(n.value.op, ast.Div) and \
-                    repo.const(fi.module, n.value.left) is not UNKNOWN and not any(isinstance(c, ast.Call) for c in ast.walk(n.value)):
-                sites.append((fi, n, n.value, 1 if fi.name == "celerity" else 2))
     sa = repo.cls("wavespectra.specarray.SpecArray")
-    for name in ("uss_x", "uss_y", "uss", "mss"):
-        fi = sa.methods[name]
+    targets = [(repo.func("wavespectra.core.utils.celerity"), -1), (repo.func("wavespectra.core.utils.wavelen"), -2)] + \
+        [(sa.methods[m], -2) for m in ("uss_x", "uss_y", "uss", "mss")]
+    for fi, power in targets:
+        found = False
+        seen = set()
         for n in ast.walk(fi.node):
-            if isinstance(n, ast.Assign) and isinstance(n.targets[0], ast.Name) and n.targets[0].id == "L":
-                sites.append((fi, n, n.value, 2))
-    for fi, n, e, power in sites:
-        coef = exp = None
-        if isinstance(e, ast.BinOp) and isinstance(e.op, ast.Div):
-            coef = repo.const(fi.module, e.left)
-            d = e.right
-            if isinstance(d, ast.BinOp) and isinstance(d.op, ast.Pow):
-                exp = repo.const(fi.module, d.right)
-            elif isinstance(d, (ast.Name, ast.Attribute)):
-                exp = 1
-        elif isinstance(e, ast.BinOp) and isinstance(e.op, ast.Mult):
-            coef = repo.const(fi.module, e.left)
-            r = e.right
-            if isinstance(r, ast.BinOp) and isinstance(r.op, ast.Pow):
-                ex = repo.const(fi.module, r.right)
-                inner = r.left
-                if isinstance(inner, ast.BinOp) and isinstance(inner.op, ast.Div) and repo.const(fi.module, inner.left) in (1, 1.0):
-                    exp = ex
-        if coef == 1.56 and exp in (power, float(power)):
-            rep.ok("R-C01-5", f"{fi.file}:{n.lineno} {fi.short}", unparse(e), f"1.56 / f^{power}")
-        else:
-            rep.fail("R-C01-5", fi.file, n.lineno, fi.qualname, unparse(n)[:100], f"the deep-water closed form must be exactly 1.56 / f^{power}")
+            if not isinstance(n, ast.BinOp) or id(n) in seen:
+                continue
+            m = monomial(repo, fi.module, n, {})
+            if m is None or abs(m[0] - 1.56) > 1e-12 or len(m[1]) != 1:
+                continue
+            # maximal monomial subtree only
+            for sub in ast.walk(n):
+                seen.add(id(sub))
+            (sym, exp), = m[1].items()
+            found = True
+            sites.append(fi)
+            if sym.split(".")[-1] in ("freq",) and exp == power:
+                rep.ok("R-C01-5", f"{fi.file}:{n.lineno} {fi.short}", unparse(n), f"1.56 * f^{power}")
+            else:
+                rep.fail("R-C01-5", fi.file, n.lineno, fi.qualname, unparse(n)[:100], f"the deep-water closed form must be exactly 1.56 * f^{power} (found 1.56 * {sym}^{exp})")
+        if not found:
+            rep.fail("R-C01-5", fi.file, fi.node.lineno, fi.qualname, "deep-water branch", f"the deep-water closed form 1.56 * f^{power} is missing")
     rep.floor("R-C01-5", "deep-water closed-form sites", len(sites), 6)
     # wavenuma: the polynomial loop covers the whole coefficient table
     fi = repo.func("wavespectra.core.utils.wavenuma")
